@@ -28,7 +28,7 @@ VIEW_FUNCS = {
     "asarray", "asanyarray", "ascontiguousarray", "asfortranarray", "squeeze", "transpose", "broadcast_to", "atleast_1d",
     "atleast_2d", "atleast_3d", "reshape", "ravel", "moveaxis", "swapaxes", "expand_dims", "rollaxis", "flip", "fliplr", "flipud",
     "as_strided", "sliding_window_view", "diagonal", "real", "imag", "broadcast_arrays", "array_split", "split", "hsplit", "vsplit",
-    "dsplit", "rot90", "asarray_safe", "iter", "next", "reversed", "list", "tuple", "dict", "zip", "enumerate", "getattr", "first", "second", "last", "nth", "partition", "concat",
+    "dsplit", "rot90", "asarray_safe", "require", "asarray_chkfinite", "asmatrix", "real_if_close", "trim_zeros", "getdata", "getmaskarray", "getmask", "nan_to_num_inplace", "iter", "next", "reversed", "list", "tuple", "dict", "zip", "enumerate", "getattr", "first", "second", "last", "nth", "partition", "concat",
 }
 ALIAS_ATTRS = {"T", "mT", "real", "imag", "flat", "base", "data", "values", "array", "mask", "_data", "_mask", "A", "parent"}
 FRESH_METHODS = {"copy", "astype", "sum", "mean", "tolist", "item", "tobytes", "dot", "conj", "conjugate", "round", "clip", "cumsum", "cumprod", "max", "min", "any", "all", "argmax", "argmin", "nonzero", "compress", "take", "repeat", "flatten", "filled", "compressed", "format", "join", "split", "strip"}
@@ -37,6 +37,16 @@ WRITE_ARG0_FUNCS = {"copyto", "put", "place", "putmask", "fill_diagonal", "put_a
 
 
 CONTAINER_FUNCS = {"list", "tuple", "dict", "set", "frozenset", "sorted", "zip", "enumerate", "reversed", "concat", "partition", "OrderedDict", "defaultdict"}
+
+
+SCALAR_TYPES = {"np.generic", "numpy.generic", "generic", "Number", "numbers.Number", "Integral", "numbers.Integral", "Real", "int", "float", "complex", "bool", "str", "bytes", "np.number", "np.integer", "np.floating", "np.bool_", "np.str_"}
+
+
+def _only_scalar_types(spec):
+    """``spec`` (second argument of isinstance) names immutable scalar types only - ``np.generic`` or a tuple of such.
+    ``(np.ndarray, np.generic)`` does NOT qualify: the true arm may hold an array."""
+    elts = spec.elts if isinstance(spec, ast.Tuple) else [spec]
+    return bool(elts) and all((dotted(e) or "") in SCALAR_TYPES for e in elts)
 
 
 def _contain(al):
@@ -116,7 +126,7 @@ class AliasAnalysis:
             orelse = self.alias(e.orelse, st)
             t = e.test
             # isinstance(v, np.generic): the true arm handles an immutable scalar
-            if isinstance(t, ast.Call) and dotted(t.func) == "isinstance" and len(t.args) == 2 and "generic" in unparse(t.args[1]):
+            if isinstance(t, ast.Call) and dotted(t.func) == "isinstance" and len(t.args) == 2 and _only_scalar_types(t.args[1]):
                 body = frozenset()
             return body | orelse
         if isinstance(e, ast.BoolOp):
@@ -215,8 +225,14 @@ class AliasAnalysis:
         if isinstance(target, ast.Name):
             st[target.id] = al
         elif isinstance(target, (ast.Tuple, ast.List)):
+            # unpacking: each target receives an ELEMENT of the value (``*rest, where, out = args`` binds ``out`` to
+            # one of the arguments themselves, not to a container of them); a starred target a fresh list of elements
+            elem = frozenset(t[:-3] if t.endswith("[*]") else t for t in al)
             for t in target.elts:
-                self._assign(t.value if isinstance(t, ast.Starred) else t, al, st)
+                if isinstance(t, ast.Starred):
+                    self._assign(t.value, _contain(elem), st)
+                else:
+                    self._assign(t, elem, st)
 
     def _scan_writes(self, node, stmt, st, record):
         """Writes performed by evaluating expression ``node``."""
@@ -327,7 +343,7 @@ class AliasAnalysis:
             t, pol = t.operand, (not pol)
         if isinstance(t, ast.Call) and isinstance(t.func, ast.Name) and t.args and isinstance(t.args[0], ast.Name):
             v = t.args[0].id
-            if t.func.id == "isinstance" and len(t.args) == 2 and "generic" in unparse(t.args[1]) and pol is True:
+            if t.func.id == "isinstance" and len(t.args) == 2 and _only_scalar_types(t.args[1]) and pol is True:
                 st = dict(st)
                 st[v] = frozenset()
             elif t.func.id == "hasattr" and len(t.args) == 2 and isinstance(t.args[1], ast.Constant) and t.args[1].value == "copy" and pol is False:
